@@ -338,7 +338,9 @@ func replayOne(r *res.Result, cfgs map[int]*config.Config, b *beh) {
 			continue
 		}
 		gap, req := arrive[k].Sub(prev), delayBefore(k)
-		if float64(gap) < 0.95*float64(req) {
+		// one-sided bound with slack: "finished" is stamped by the fake worker after the client may already have
+		// started its timer, and a loaded machine stretches that difference
+		if gap < req-250*time.Millisecond {
 			r.Fail(map[string]string{"engine": "workerretry", "kind": "backoff"}, b, "attempt %d arrived %v after attempt %d finished; back-off requires >= %v", k, gap, k-1, req)
 			return
 		}
